@@ -214,7 +214,7 @@ Lemma thread_step_frame st th : errors (fst (thread_step st th)) = errors st /\
   (trace (fst (thread_step st th)) = trace st \/
    exists e, trace (fst (thread_step st th)) = e :: trace st /\ is_ready e = false /\ e <> EExit).
 Proof.
-  unfold thread_step. destruct (t_hung th || t_done th); simpl; auto.
+  unfold thread_step. destruct (t_hung th); simpl; auto.
   destruct (t_prog th) as [|e r]; simpl; auto.
   destruct e; simpl; auto; try (repeat split; auto; right; eexists; repeat split; eauto; discriminate).
   destruct (d_hang _); simpl; auto. repeat split; auto; right; eexists; repeat split; eauto; discriminate.
@@ -325,16 +325,14 @@ Proof. intros H th I D. right. auto. Qed.
 Lemma thread_step_spec st th :
   t_id (snd (thread_step st th)) = t_id th /\
   (t_done (snd (thread_step st th)) = true ->
-   (t_done th = true /\ fst (thread_step st th) = st) \/
+   t_done th = true \/
    trace (fst (thread_step st th)) = EStarted (t_id th) :: trace st).
 Proof.
-  unfold thread_step. destruct (t_hung th || t_done th) eqn:HD; simpl.
+  unfold thread_step. destruct (t_hung th) eqn:HD; simpl.
   - split; auto.
-  - apply orb_false_iff in HD. destruct HD as [_ D].
-    destruct (t_prog th) as [|e r]; simpl; [split; auto|].
-    destruct e; simpl; try (split; [reflexivity|discriminate]).
-    + destruct (d_hang _); simpl; split; auto; discriminate.
-    + split; auto.
+  - destruct (t_prog th) as [|e r]; simpl; [split; auto|].
+    destruct e; simpl; try (split; [reflexivity|auto]).
+    destruct (d_hang _); simpl; split; auto.
 Qed.
 
 Lemma threads_step_started t : forall ths st,
@@ -346,8 +344,9 @@ Proof.
   - pose proof (thread_step_spec st th) as [I D]. pose proof (thread_step_frame st th) as [_ [_ TR]].
     destruct (thread_step st th) as [st1 th1]; simpl in *.
     intros x [X|X] DX.
-    + subst x. rewrite I. destruct (D DX) as [[D0 E]|E].
-      * subst st1. apply S; auto. left; auto.
+    + subst x. rewrite I. destruct (D DX) as [D0|E].
+      * assert (Q : In (EStarted (t_id th)) (trace st)) by (apply S; auto; left; auto).
+        destruct TR as [TR|[e [TR _]]]; rewrite TR; auto. right; auto.
       * rewrite E. left; auto.
     + assert (Q : In (EStarted (t_id x)) (trace st)) by (apply S; auto; right; auto).
       destruct TR as [TR|[e [TR _]]]; rewrite TR; auto. right; auto.
@@ -455,19 +454,140 @@ Proof.
 Qed.
 
 (* ---------------------------------------------------------------- the start-up program of a poll thread *)
-Theorem thread_prog_shape st t : exists A B,
-  thread_prog st t = A ++ B ++ [EStarted t] /\
-  (forall m k, ~ In (ERead m k) A) /\ (forall e, In e B -> exists m k, e = ERead m k) /\
+Definition writes_ireads (st : node) (m : name) : list event :=
+  map (EWrite m) (d_writes (decl_of st m)) ++ [EIReads m].
+Definition polled_on (st : node) (t : name) : list name :=
+  filter (fun m => d_poll (decl_of st m)) (polled_of st t).
+
+Lemma startup_prog_eq st t :
+  startup_prog st t = flat_map (writes_ireads st) (polled_of st t) ++
+                      flat_map (fun m => [ERead m 0; ERead m 1]) (polled_on st t).
+Proof. reflexivity. Qed.
+
+(* the sequence without communication failure: shape of the first round *)
+Lemma startup_prog_shape st t : exists A B,
+  startup_prog st t = A ++ B /\
+  (forall e, In e A -> exists m k, e = EWrite m k \/ e = EIReads m) /\
+  (forall e, In e B -> exists m k, e = ERead m k) /\
   (forall m k, In (EWrite m k) A -> In m (polled_of st t) /\ In k (d_writes (decl_of st m))) /\
   (forall m, In m (polled_of st t) -> forall k, In k (d_writes (decl_of st m)) -> In (EWrite m k) A).
 Proof.
-  unfold thread_prog. eexists. eexists. split; [reflexivity|]. split; [|split; [|split]].
-  - intros m k H. apply in_flat_map in H. destruct H as [x [_ H]]. apply in_app_or in H.
-    destruct H as [H|[H|[]]]; [|discriminate]. apply in_map_iff in H. destruct H as [y [H _]]. discriminate.
+  rewrite startup_prog_eq. eexists. eexists. split; [reflexivity|]. split; [|split; [|split]].
+  - intros e H. apply in_flat_map in H. destruct H as [x [_ H]]. apply in_app_or in H.
+    destruct H as [H|[H|[]]].
+    + apply in_map_iff in H. destruct H as [y [H _]]. subst e. exists x, y. left; reflexivity.
+    + subst e. exists x, 0. right; reflexivity.
   - intros e H. apply in_flat_map in H. destruct H as [x [_ H]]. simpl in H.
     destruct H as [H|[H|[]]]; subst; eauto.
   - intros m k H. apply in_flat_map in H. destruct H as [x [X H]]. apply in_app_or in H.
     destruct H as [H|[H|[]]]; [|discriminate]. apply in_map_iff in H. destruct H as [y [H Y]].
     inversion H; subst. auto.
   - intros m M k K. apply in_flat_map. exists m. split; auto. apply in_or_app. left. apply in_map. exact K.
+Qed.
+
+Lemma cut_at_none f : forall l, (forall e, In e l -> f e = false) -> cut_at f l = (l, false).
+Proof.
+  induction l as [|e r IH]; intros H; simpl; auto.
+  rewrite (H e (or_introl eq_refl)). rewrite IH; auto. intros x X. apply H. right; exact X.
+Qed.
+
+Lemma cut_at_app f : forall X Y, (forall e, In e X -> f e = false) ->
+  cut_at f (X ++ Y) = (X ++ fst (cut_at f Y), snd (cut_at f Y)).
+Proof.
+  induction X as [|e r IH]; intros Y H; simpl.
+  - destruct (cut_at f Y); reflexivity.
+  - rewrite (H e (or_introl eq_refl)). rewrite IH; [reflexivity|]. intros x X. apply H. right; exact X.
+Qed.
+
+(* what was executed is a prefix of the whole sequence; it was abandoned exactly when its last event raised *)
+Lemma cut_at_spec f : forall l,
+  exists suf, l = fst (cut_at f l) ++ suf /\
+    (snd (cut_at f l) = false -> suf = [] /\ forall e, In e l -> f e = false) /\
+    (snd (cut_at f l) = true -> exists p e, fst (cut_at f l) = p ++ [e] /\ f e = true /\ forall x, In x p -> f x = false).
+Proof.
+  induction l as [|e r IH]; simpl.
+  - exists []. repeat split; auto; try discriminate. intros x [].
+  - destruct (f e) eqn:F; simpl.
+    + exists r. repeat split; try discriminate. intros _. exists [], e. repeat split; auto. intros x [].
+    + destruct IH as [suf [E [N A]]]. destruct (cut_at f r) as [p b]; simpl in *. exists suf.
+      split; [rewrite E at 1; reflexivity|]. split.
+      * intros B. destruct (N B) as [S Q]. split; auto. intros x [X|X]; [subst; auto|auto].
+      * intros B. destruct (A B) as [p0 [e0 [P [FE Q]]]]. exists (e :: p0), e0. rewrite P. repeat split; auto.
+        intros x [X|X]; [subst; auto|auto].
+Qed.
+
+(* every history: the program of a poll thread is a prefix of the start-up sequence (all of it unless its last event
+   raised CommunicationFailedError), then the started callback - exactly once -, then (after a failure) the short wait,
+   then the first pass of the regular loop *)
+Theorem thread_prog_general st t : exists (pre suf : list event) (aborted : bool),
+  startup_prog st t = pre ++ suf /\
+  thread_prog st t = pre ++ [EStarted t] ++ (if aborted then [ECWait t] else []) ++ map EDoPoll (polled_on st t) /\
+  (aborted = false -> suf = []) /\
+  (aborted = true -> exists p e, pre = p ++ [e] /\ fails_at st e = true) /\
+  (forall e, In e (removelast pre) -> fails_at st e = false).
+Proof.
+  unfold thread_prog. destruct (cut_at_spec (fails_at st) (startup_prog st t)) as [suf [E [N A]]].
+  destruct (cut_at (fails_at st) (startup_prog st t)) as [pre ab]; simpl in *.
+  exists pre, suf, ab. split; [exact E|]. split; [reflexivity|]. split; [|split].
+  - intros B. apply N; exact B.
+  - intros B. destruct (A B) as [p [e [P [F _]]]]. eauto.
+  - destruct ab.
+    + destruct (A eq_refl) as [p [e [P [F Q]]]]. subst pre. rewrite removelast_last. exact Q.
+    + destruct (N eq_refl) as [S Q]. subst suf. rewrite app_nil_r in E. subst pre.
+      intros e I. apply Q. clear - I. induction (startup_prog st t) as [|a l IH]; simpl in *; [contradiction|].
+      destruct l; [contradiction|]. destruct I as [I|I]; auto.
+Qed.
+
+(* no communication failure scripted for the modules of the thread: the whole first round, as before *)
+Theorem thread_prog_shape st t :
+  (forall m, In m (polled_of st t) -> d_cfail (decl_of st m) = CFNone) ->
+  exists A B,
+  thread_prog st t = A ++ B ++ [EStarted t] ++ map EDoPoll (polled_on st t) /\
+  (forall m k, ~ In (ERead m k) A) /\ (forall m, ~ In (EDoPoll m) A) /\
+  (forall e, In e B -> exists m k, e = ERead m k) /\
+  (forall m k, In (EWrite m k) A -> In m (polled_of st t) /\ In k (d_writes (decl_of st m))) /\
+  (forall m, In m (polled_of st t) -> forall k, In k (d_writes (decl_of st m)) -> In (EWrite m k) A).
+Proof.
+  intros NF. destruct (startup_prog_shape st t) as [A [B [E [HA [HB [W1 W2]]]]]].
+  exists A, B. unfold thread_prog. rewrite cut_at_none.
+  - unfold after_startup. simpl. rewrite E. rewrite <- app_assoc. split; [reflexivity|].
+    split; [|split; [|split; [exact HB|split; [exact W1|exact W2]]]].
+    + intros m k I. destruct (HA _ I) as [x [j [Q|Q]]]; discriminate.
+    + intros m I. destruct (HA _ I) as [x [j [Q|Q]]]; discriminate.
+  - intros e I. rewrite startup_prog_eq in I. apply in_app_or in I. destruct I as [I|I].
+    + apply in_flat_map in I. destruct I as [x [X I]]. apply in_app_or in I. destruct I as [I|[I|[]]].
+      * apply in_map_iff in I. destruct I as [y [I _]]. subst e. reflexivity.
+      * subst e. simpl. rewrite (NF x X). reflexivity.
+    + apply in_flat_map in I. destruct I as [x [X I]]. unfold polled_on in X. apply filter_In in X. destruct X as [X _].
+      simpl in I. destruct I as [I|[I|[]]]; subst e; simpl; rewrite (NF x X); reflexivity.
+Qed.
+
+(* histories WITH communication failures, under the exact guard the code supports: if initialReads of no module
+   served EARLIER by the same thread raises CommunicationFailedError, every configured value of m is written, and
+   nothing before that write is a poll (read function, doPoll) or the started callback - whatever fails later *)
+Theorem writes_before_poll_comm st t L1 m L2 k :
+  polled_of st t = L1 ++ m :: L2 ->
+  (forall x, In x L1 -> d_cfail (decl_of st x) <> CFIReads) ->
+  In k (d_writes (decl_of st m)) ->
+  exists P1 P2, thread_prog st t = P1 ++ EWrite m k :: P2 /\
+    (forall e, In e P1 -> exists x j, e = EWrite x j \/ e = EIReads x).
+Proof.
+  intros EL G K. apply in_split in K. destruct K as [w1 [w2 K]].
+  set (X := flat_map (writes_ireads st) L1 ++ map (EWrite m) w1).
+  assert (EX : exists Y, startup_prog st t = X ++ EWrite m k :: Y).
+  { rewrite startup_prog_eq, EL. rewrite flat_map_app. simpl. unfold writes_ireads at 2. rewrite K.
+    rewrite map_app. simpl. eexists. unfold X. repeat rewrite <- app_assoc. simpl. reflexivity. }
+  destruct EX as [Y EY].
+  assert (HX : forall e, In e X -> (exists x j, e = EWrite x j \/ e = EIReads x) /\ fails_at st e = false).
+  { intros e I. unfold X in I. apply in_app_or in I. destruct I as [I|I].
+    - apply in_flat_map in I. destruct I as [x [XI I]]. apply in_app_or in I. destruct I as [I|[I|[]]].
+      + apply in_map_iff in I. destruct I as [y [I _]]. subst e. split; [exists x, y; left; reflexivity|reflexivity].
+      + subst e. split; [exists x, 0; right; reflexivity|]. simpl. specialize (G x XI).
+        destruct (d_cfail (decl_of st x)); auto. contradiction.
+    - apply in_map_iff in I. destruct I as [y [I _]]. subst e. split; [exists m, y; left; reflexivity|reflexivity]. }
+  unfold thread_prog. rewrite EY. rewrite cut_at_app; [|intros e I; apply HX; exact I].
+  simpl. destruct (cut_at (fails_at st) Y) as [p b]; simpl.
+  exists X, (p ++ after_startup st t b). split.
+  - rewrite <- app_assoc. reflexivity.
+  - intros e I. apply HX; exact I.
 Qed.
